@@ -24,7 +24,7 @@ What is recorded.
         one line per DISTINCT call (same function, arguments and outcome are written once per process; the number of
         calls is kept in the "count" line).  Extra observations the existing judges ask for are taken by calling the
         ORIGINAL function again (pure functions; never recorded): "res2" = f(result) for the check-escaped encoders,
-        "alt" = parse_host(host + ":8042") for parse_host.
+        "alt" = parse_host(host + ":8042")[0] and, when a default port was given, "nodefault" = parse_host(host).
   {"kind":"hist","cls":"reader.sync|reader.async|stream.wsgi|stream.asgi","ctor":{..},"src":[..],"data":..,"ev":[..],"flags":[..]}
         one line per reader / stream object: constructor arguments, everything its source returned (reader: the
         concatenated bytes and the list of asks; WSGI stream: every ask of wsgi.input with the size asked and the bytes
